@@ -91,6 +91,7 @@ func main() {
 				ni = n
 			}
 			cases = append(cases, names.ImportedC11(r, ni)...)
+			cases = append(cases, names.PendingC11()...)
 		case "C12":
 			n, m := 30, 300
 			if *thorough {
